@@ -148,7 +148,7 @@ class Analyzer:
             outputs=filtered_outputs,
             performance=self.performance,
         )
-        if hasattr(self, "error_rate"):
+        if expected is not None:
             results.error_rate = self.error_rate  # type: ignore
         self.results = results
         # Return dict
